@@ -67,6 +67,10 @@ def failing(name, rng=None):
         s = {'banner': 'SSH-1.5-OpenSSH_1.2.3', 'proto': 1, 'ssh1': {'cmask': 0x48, 'amask': 0x0c, 'bad_crc': True}, 'linger': 8}
     elif name == 'probe-garbage':
         s['faults'] = [{'conn': 'probe', 'at': 'kexreply', 'op': 'random', 'seed': 5}]
+    elif name == 'probe-wrong-type':
+        s['faults'] = [{'conn': 'probe', 'at': 'kexreply', 'op': 'patch', 'offset': 5, 'hex': '03'}]
+    elif name == 'probe-malformed-reply':
+        s['faults'] = [{'conn': 'probe', 'at': 'kexreply', 'op': 'replace', 'hex': wire.packet(wire.kex_reply(31, wire.string('ssh-ed25519'))).hex()}]
     elif name == 'wrong-first-packet':
         s['faults'] = [{'at': 'kexinit', 'op': 'patch', 'offset': 5, 'hex': '15'}]
     elif name == 'garbage-banner':
